@@ -96,6 +96,65 @@ pub fn c17(ctx: &Ctx) -> Report {
         let all: Vec<(u8, u8)> = (0..128u8).flat_map(|c| [(c, 0u8), (c, 127)]).collect();
         crate::p_midi::cc_sequences(ctx, &mut rep, 5, &all, if thorough { 3 } else { 2 }, &probes, P, "all controller numbers x {0,127}, then probes (panic check)");
     }
+    // long runs: more operations of one kind in a row than a 16-bit counter (with small prescalers) can hold
+    crate::p_lfo::long_runs(ctx, &mut rep, "C17");
+    {
+        // envelope: idle, held in sustain, and in a slow attack for 70000 ticks each
+        for (label, script) in [("70000 ticks at rest", vec!["tick*70000".to_string()]), ("a note held for 70000 ticks", vec!["gate_on".to_string(), "tick*70000".to_string(), "gate_off".to_string(), "tick*70000".to_string()]), ("70000 ticks inside a 20 s attack", vec!["attack:20".to_string(), "gate_on".to_string(), "gate_on".to_string(), "tick*70000".to_string()])] {
+            let r = std::panic::catch_unwind(|| {
+                let mut m = AdsrM::new(48000.0, vec![], vec![]);
+                for (o, n) in expand_ops(&script) {
+                    let op = crate::p_adsr::parse_op(&o);
+                    for _ in 0..n {
+                        let mut out = StepOut::new();
+                        m.apply(&op, &mut out);
+                    }
+                }
+            });
+            rep.count("long_run_scripts", 1);
+            if let Err(e) = r {
+                rep.violation(viol("panic-in-a-long-run", format!("envelope, {}: {}", label, panic_msg(&e)), "adsr", json!({"fs": 48000.0}), script.clone()));
+            }
+        }
+        // glide: one input held for 70000 samples, and 70000 set_time toggles
+        let r = std::panic::catch_unwind(|| {
+            let mut g = synth_utils::glide_processor::GlideProcessor::new(48000.0);
+            g.set_time(0.3);
+            for _ in 0..70_000 {
+                g.process(0.7);
+            }
+            for i in 0..70_000u32 {
+                g.set_time(if i % 2 == 0 { 0.0 } else { 1.0 });
+                g.process(0.1);
+            }
+        });
+        rep.count("long_run_scripts", 1);
+        if let Err(e) = r {
+            rep.violation(viol("panic-in-a-long-run", format!("glide: 70000 held samples / 70000 time toggles: {}", panic_msg(&e)), "glide", json!({"fs": 48000.0}), vec!["set_time:0.3".into(), "process:0.7*70000".into()]));
+        }
+        // MIDI: each single byte value that is a complete message or filler on its own, 2^21 times in a row
+        // (24 clock bytes x 2^16 beats = 1.57 million)
+        par_ranges(ctx, &mut rep, 12, 12, |_, lo, hi, lc| {
+            for j in lo..hi {
+                let b: u8 = [0xF8u8, 0xFE, 0xFA, 0xFC, 0xFF, 0xF6, 0xF7, 0xF0, 0x00, 0x7F, 0xF1, 0xF9][j as usize];
+                let n: u64 = (1 << 21) + 7;
+                let r = std::panic::catch_unwind(|| {
+                    let mut m = MonoMidiReceiver::new(0);
+                    for b0 in [0x90u8, 60, 100] {
+                        m.parse(b0);
+                    }
+                    for _ in 0..n {
+                        m.parse(b);
+                    }
+                    m.gate()
+                });
+                lc.count("long_run_scripts", 1);
+                if let Err(e) = r {
+                    lc.violation(viol("panic-in-a-long-run", format!("MIDI byte {:#04x} repeated {} times: {}", b, n, panic_msg(&e)), "midi", json!({"channel": 0}), vec!["byte:144".into(), "byte:60".into(), "byte:100".into(), format!("byte:{}*{}", b, n)]));
+                }
+            }
+        });
+    }
     // LFO: every state set_phase can create must be readable
     crate::p_lfo::set_phase_sweep(ctx, &mut rep, if thorough { 4 } else { 64 }, P);
     // LFO
@@ -124,7 +183,7 @@ pub fn c17(ctx: &Ctx) -> Report {
             for j in lo..hi {
                 let (fs, t) = jr[j as usize];
                 for level in [1.0e-30f32, 1.0e-13, 0.3, 1.9, 2.5, 60.0, 1000.0, 1.0e6, 3.0e38] {
-                    let n = ((3.0 * t as f64 * fs as f64) as usize).min(if thorough { 400_000 } else { 60_000 }) + 64;
+                    let n = ((3.0 * t as f64 * fs as f64) as usize).min(if thorough { 400_000 } else { 70_000 }) + 64;
                     let r = std::panic::catch_unwind(|| {
                         let mut g = synth_utils::glide_processor::GlideProcessor::new(fs);
                         g.set_time(t);
